@@ -41,6 +41,11 @@ def run(chk):
         r05_3(chk, dx)
     if chk.want("R05.4") or chk.want("R05.5"):
         r05_45(chk, dx)
+    chk.rule("R05.8", "interior and exterior keep their roles at the library's own construction site of a stockholder weight "
+                      "(stockholder_weight_descriptor: = C09 R09.2 weight-roles)", 1)
+    if chk.want("R05.8"):
+        from ..inherit import inherit
+        inherit(chk, "R05.8", "c09", ["R09.2"], fingerprints=lambda f: "weight-roles" in f)
     chk.rule("R05.7", "the atoms of from_xyz_file / from_xyz_files are the file's atoms: the XYZ reader hands on the collected elements and the parsed "
                       "coordinates unchanged, and the constructors pass them to the density unchanged (= C16 R16.4 reader clauses)", 2)
     if chk.want("R05.7"):
